@@ -18,6 +18,9 @@ fn set_env(spec: &str) {
 }
 
 fn show_file(path: &PathBuf) -> String {
+    if path.is_dir() {
+        return "D".to_string();
+    }
     match std::fs::read(path) {
         Err(_) => "-".to_string(),
         Ok(bs) => match String::from_utf8(bs) {
@@ -31,7 +34,9 @@ pub fn run(_args: &[String], out: &mut dyn Write) -> i32 {
     let dir = std::env::temp_dir().join(format!("okane-verif-c20-{}", std::process::id()));
     let _ = std::fs::remove_dir_all(&dir);
     std::fs::create_dir_all(&dir).unwrap();
-    let path = dir.join("golden.txt");
+    let plain_path = dir.join("golden.txt");
+    // `d`: a golden below a directory that does not exist (std::fs::write cannot create it)
+    let deep_path = dir.join("no-such-dir").join("golden.txt");
     let old = SystemTime::UNIX_EPOCH + Duration::from_secs(1_000_000_000);
     let stdin = std::io::stdin();
     for line in stdin.lock().lines() {
@@ -42,13 +47,21 @@ pub fn run(_args: &[String], out: &mut dyn Write) -> i32 {
             continue;
         }
         // set up the world
-        let _ = std::fs::remove_file(&path);
-        if ws[0] == "b" {
+        let _ = std::fs::remove_file(&plain_path);
+        let _ = std::fs::remove_dir_all(&plain_path);
+        let _ = std::fs::remove_dir_all(dir.join("no-such-dir"));
+        let path = if ws[0] == "d" { deep_path.clone() } else { plain_path.clone() };
+        if ws[0] == "D" {
+            std::fs::create_dir(&path).unwrap();
+        } else if ws[0] == "b" {
             std::fs::write(&path, [0xffu8, 0xfe, 0x00, 0xc3]).unwrap();
         } else if let Some(t) = ws[0].strip_prefix("t:") {
             std::fs::write(&path, sx::dec_bytes(t).unwrap()).unwrap();
         }
-        if path.exists() {
+        if path.is_dir() {
+            std::fs::File::open(&path).unwrap().set_modified(old).unwrap();
+        }
+        if path.is_file() {
             let f = std::fs::File::options().write(true).open(&path).unwrap();
             f.set_modified(old).unwrap();
         }
